@@ -31,17 +31,21 @@ _hist("C01", "runtime monitor: per-session view replayer over the recorded byte 
       "into its view (EXISTS never shrinks, EXPUNGE/FETCH name existing positions, no EXPUNGE during non-UID FETCH/STORE/SEARCH, UIDs per cell stable and ascending) "
       "and at every NOOP/CHECK/IDLE flush the view must equal the server's message list.  Scheduled tier: concurrent command sets (MOVE into the selected mailbox, "
       "STORE landing during a MOVE, EXPUNGE beside APPEND/COPY, POP3 QUIT with marks, plus C10's sets) run under the deterministic scheduler with an always-on "
-      "view monitor on every session.")
+      "view monitor on every session; at quiescence every session synchronises once more and the number of messages it can address, and the flags it was last told "
+      "per position (belief monitor), must be what FETCH 1:* answers.")
 _hist("C02", "runtime monitor: write-once (mailbox, UIDVALIDITY, UID)->message ledger and UIDNEXT/UIDVALIDITY monotonicity over recorded histories",
       "Exploration: histories with expunge, copy/move-in, pack (lowered threshold), rename, delete/re-create, deliveries and orderly restarts; after every step an "
       "observer re-reads all mailboxes and the ledger rules (ascending, never reused, UIDNEXT above all and non-decreasing, APPENDUID/COPYUID honest, UIDVALIDITY "
-      "constant or larger after re-creation) are evaluated.")
+      "constant or larger after re-creation) are evaluated.  Skeletons add kills without shutdown at quiet moments, folders found together at start-up, and "
+      "DELETE of folders that hold non-message files.")
 _hist("C03", "runtime monitor: UID->(content digest, INTERNALDATE) ledger re-checked after every step; seq-form vs UID-form differential",
       "Exploration: histories biased to expunging arbitrary subsets, packing, deliveries, rename and restart; every live message is re-fetched by UID after every "
       "step (BODY.PEEK[] digest + INTERNALDATE) and FETCH 1:* / UID FETCH 1:* triples are compared.")
 _hist("C04", "runtime monitor: reference flag model vs own FETCH data, other sessions' notifications, observer FETCH/SEARCH probes and on-disk .mh_sequences",
       "Exploration: STORE/FETCH/APPEND/COPY/SEARCH sequences over 1-3 sessions with system flags in mixed case and keyword atoms; all 64 initial flag sets of a message "
-      "enumerated; known findings (unseen keyword exposure, MH-sequence-name aliasing) are classified by mechanism.")
+      "enumerated; known findings (unseen keyword exposure, MH-sequence-name aliasing) are classified by mechanism.  Scheduled tier: flag changes racing removals and "
+      "each other under the deterministic scheduler; what each session was last told about every position's flags (notifications and own responses, EXPUNGEs applied in "
+      "the order received) must be what FETCH says at quiescence.")
 _hist("C05", "runtime monitor: conservation over unique content identities (observer snapshot after every command vs model prediction)",
       "Exploration: EXPUNGE/UID EXPUNGE/CLOSE/COPY/MOVE/APPEND with arbitrary \\Deleted subsets, partly non-existent UID sets, same-mailbox/missing destinations, EXAMINE "
       "sessions; after every command the observer's view of every mailbox must equal the model's exact prediction; refused commands and EXAMINE sessions change nothing.")
@@ -76,7 +80,8 @@ _fn("C14", "runtime monitor: independent search evaluator on server-reported fac
 _fn("C15", "runtime monitor: reference denotation of a sequence set vs every interpreter (end-to-end commands and the real functions called on a live Mailbox)",
     "Exploration, exhaustive on the bound in the thorough tier: every set of <= 3 elements over {0..N+1,*} and their ranges for N <= 5 at function level "
     "(msg_set_to_msg_seq_set, sequence_set_to_list as COPY uses it, the search matchers), every set of <= 2 elements end-to-end in FETCH/UID FETCH/SEARCH keys/STORE/COPY "
-    "and sampled MOVE/UID MOVE/UID EXPUNGE on sparse-UID mailboxes; rejected non-UID numbers must never be applied.",
+    "and sampled MOVE/UID MOVE/UID EXPUNGE on sparse-UID mailboxes; rejected non-UID numbers must never be applied.  Arrivals stage: the mailbox changes behind the session's "
+    "back (MH delivery, another session's APPEND or EXPUNGE) and the first command sent afterwards is a UID FETCH/STORE/SEARCH/COPY whose set contains * or reaches past the known UIDs.",
     "function-level evaluation calls the real functions on the live Mailbox object of the rig; UID sets containing 0 may be rejected or ignored")
 _fn("C08", "differential runtime monitor: real IMAPClientCommand.parse() vs an independent RFC 3501 command reader; totality monitor; proxy end-to-end sample",
     "Exploration: grammar-directed sentences of every command and argument encoding, their truncations/mutations/garbage, random bytes and adversarial specials; "
@@ -101,7 +106,9 @@ _fn("C19", "runtime monitor: reference tokenizer of the client byte stream vs th
 _fn("C20", "runtime monitor: POP3 reply reader + session model (snapshot table, DELE marks) + IMAP observer of INBOX",
     "Exploration: POP3 sessions (valid/invalid/repeated/marked numbers, QUIT / abrupt disconnect / no ending) over INBOXes with dot lines, lone dots, missing final newline, "
     "8-bit and long lines and sparse UIDs, interleaved with IMAP APPEND/EXPUNGE/STORE, deliveries, number reuse and packing; the listing table, UIDL=IMAP UID, RETR identity by "
-    "content id, announced size = delivered octets after un-stuffing, termination, deletion only of the marked messages and only at QUIT are checked.",
+    "content id, announced size = delivered octets after un-stuffing, a size once announced never changing (vanished messages included), termination, deletion only of the "
+    "marked messages and only at QUIT are checked; half of the scripts begin with a fixed scenario (marks + IMAP expunge of a marked message + QUIT; sizes announced, message "
+    "expunged, read, sizes asked again; RENAME INBOX with the session open).",
     "POP3 sessions run in the user process (POP3ClientProxy) at the same byte boundary as IMAP sessions")
 
 _hist("C17", "runtime monitor: namespace reference model vs LIST/LSUB (plain and LIST-EXTENDED), an independent wildcard matcher, the directory tree and the observer",
@@ -125,12 +132,12 @@ _fn("C10", "runtime monitor under a deterministic scheduler: concurrent executio
     "schedules are arrival orders of I/O completions, timers and commands only; the sequential reference is the same code run one command at a time (its sequential correctness is C01-C05's subject)", engine="sloop")
 CHECKS["C11"] = dict(category="fault_enumeration",
     technique="fault injection: SIGKILL before every persistent mutation (audit events + SQL statements) of each history and, with strace syscall fault injection, before the K-th write/fsync/pwrite64/fdatasync/unlink system call; recovery oracle over the surviving client-side ledger",
-    text=("Fault enumeration: for each representative history (messages/flags/expunge; copy/move/namespace; pack + delivery + RENAME INBOX; bare start-up on fresh, pre-existing and "
+    text=("Fault enumeration: for each representative history (messages/flags/expunge; copy/move/namespace; pack + delivery + RENAME INBOX; short exhaustive histories around one EXPUNGE, one DELETE and one RENAME INBOX; bare start-up on fresh, pre-existing and "
           "old-schema directories) the server runs in a child process that kills itself before mutation K, for every K (thorough: every point of every history; quick: start-up "
           "histories exhaustively, the others sampled); a fresh process, every third time after an MH delivery made while the server was down, restarts the server: start-up must "
           "succeed, every mailbox must SELECT, every acknowledged APPEND/COPY/MOVE message is present, acknowledged expunges stay expunged, acknowledged flags persist, no "
-          "revealed (UIDVALIDITY, UID) names another message and UIDNEXT is above every revealed UID.  One open known finding (message-number reuse while down after an "
-          "interrupted removal).  Second tier: the same histories under strace with SIGKILL injected on entry to the K-th system call of a lane (file lane: write, writev, fsync, "
+          "revealed (UIDVALIDITY, UID) names another message and UIDNEXT is above every revealed UID; when that holds the recovered server is killed in its turn and a third one is "
+          "judged the same way (a repair made only in memory does not count).  Open known findings are classified by mechanism (see known_findings.json).  Second tier: the same histories under strace with SIGKILL injected on entry to the K-th system call of a lane (file lane: write, writev, fsync, "
           "ftruncate; database lane: pwrite64, fdatasync, unlink), which produces the states inside one mutation (empty message file, truncated .mh_sequences, journal written "
           "but not synced); same recovery oracle, in-flight tolerance exact (flags of a message must equal the model before or after the in-flight command)."),
     note="a crash is a process kill (Python-level mutation points and system-call entries); completed write()s survive; power loss / torn writes below the system-call level are out of scope; strace counts system calls per thread",
